@@ -166,7 +166,7 @@ func runMuxStruct(c *mon.Ctx, prop string) {
 				continue
 			}
 			r := c.Rng("grid", pl)
-			for shape := 0; shape < 16; shape++ {
+			for shape := 0; shape < 18; shape++ {
 				p := &astits.Packet{Header: astits.PacketHeader{PID: 0x1500, HasPayload: pl > 0, ContinuityCounter: uint8(shape)}, Payload: gen.Bytes(r, int(pl))}
 				switch shape / 2 {
 				case 1:
@@ -208,6 +208,19 @@ func runMuxStruct(c *mon.Ctx, prop string) {
 					a.AdaptationExtensionField.ReservedLength = []int{170, 184, 245, 246, 250, 254, 255, 256, 300, 511, 512}[r.IntN(11)]
 					p.AdaptationField = a
 					c.Count("writepacket_oversized_extension_reserved_bytes")
+				case 8:
+					// field values wider than their fields (a splice countdown an old parse left as 200, a 40 bit clock, ...): whether they
+					// are masked or refused, whole packets or nothing
+					p.Header.HasAdaptationField = true
+					a := gen.RandomAF(r, 1+r.IntN(40), 4|1|r.IntN(32), -1)
+					a.HasSplicingCountdown = true
+					a.SpliceCountdown = []int{128, 200, 255, 256, -129, -200, 1 << 20, -(1 << 20)}[r.IntN(8)]
+					if a.HasPCR && r.IntN(2) == 0 {
+						a.PCR.Base = []int64{1 << 33, 1<<40 + 7, -1}[r.IntN(3)]
+						a.PCR.Extension = []int64{512, 1 << 12, -1}[r.IntN(3)]
+					}
+					p.AdaptationField = a
+					c.Count("writepacket_field_values_wider_than_their_fields")
 				}
 				if !p.Header.HasPayload {
 					// self-consistent adaptation-only packet: the field fills the packet (oversize shapes stay as they are)
